@@ -358,13 +358,19 @@ def check(tier):
 
     found_input = False
     reported = {}
-    for (c, i, m, tag) in r.oracle_fail:
+    prio = {k: n for n, k in enumerate("VSJRHLNT")}
+    sigs = set()
+    for (c, i, m, tag) in sorted(r.oracle_fail, key=lambda x: prio.get(x[0][0], 9)):
         kind = c.split(" ")[0]
-        if reported.get(kind, 0) >= 2 or sum(reported.values()) >= 6:
+        # at most three per kind and ten in all; for the operator cases one per (observed, expected) pattern
+        sig = (kind, i, m) if kind in ("V", "S", "T") else None
+        if reported.get(kind, 0) >= 3 or sum(reported.values()) >= 10 or (sig and sig in sigs):
             continue
         small = minimise(exe, c, True)
         if small in reported:
             continue
+        if sig:
+            sigs.add(sig)
         reported[kind] = reported.get(kind, 0) + 1
         reported[small] = 0
         found_input = True
